@@ -441,21 +441,27 @@ def run(tier, seed, rep):
                 blocks.append(('book', units, 'rich', t, None, 'XHTML', [-10, 0, 1, 2, 6], False))
         blocks += extra_blocks(2)
     else:
-        for cls, n in (('book', 4), ('article', 4)):
-            for units in shapes(cls, n):
+        # every forest of <= 3 units x variants x templates x themes x every split level ...
+        for cls in ('book', 'article'):
+            for units in shapes(cls, 3):
                 for variant in ('plain', 'rich', 'twins'):
                     if variant == 'twins' and not (len(units) >= 2 and units[-1] == units[-2]):
                         continue
                     for t in TEMPLATES:
                         for theme in THEMES:
-                            if len(units) == 4 and not (theme == 'XHTML' or (theme == 'HTML5' and t == 'default')):
-                                continue        # 4-unit forests: XHTML for all templates, HTML5 for the default one
-                            if len(units) == 4 and variant == 'rich' and t not in ('default', 'idtitle'):
+                            if theme == 'Text' and t not in ('default', 'idtitle'):
                                 continue
-                            bads = [None, ' '] if (t in ('idtitle', 'default') and len(units) <= 2) else [None]
+                            if len(units) == 3 and not (theme == 'XHTML' or (theme == 'HTML5' and t == 'default')):
+                                continue        # 3-unit forests: XHTML for all templates, HTML5 for the default one
+                            bads = [None, ' '] if (t in ('idtitle', 'default') and len(units) <= 2 and theme != 'Text') else [None]
                             for bad in bads:
                                 blocks.append((cls, units, variant, t, bad, theme, splits,
                                                len(units) <= 2 and t == 'default' and theme == 'HTML5'))
+        # ... and every forest of exactly 4 units in the plain variant under the default template
+        for cls in ('book', 'article'):
+            for units in shapes(cls, 4):
+                if len(units) == 4:
+                    blocks.append((cls, units, 'plain', 'default', None, 'XHTML', [-10, 0, 1, 2, 3, 6], False))
         blocks += extra_blocks(3)
     blocks = core.rotate(blocks, seed)
     core.merge_all(run_block, blocks, rep, chunksize=1)
